@@ -1,6 +1,7 @@
 import KV.Props.C01Cs
 import KV.Proofs.CsSyncKick
 import KV.Proofs.CsSyncPol
+import KV.Proofs.CsAux
 /-! Network-level bookkeeping for the synchronous round (C04, `KV/Props/C04Net.lean`): schedules
 built per receiving node (`phase`), the inputs a node gets from them (`proj_phase`), `GOkS` of a
 schedule without timeouts whose votes are in the trace already (`goks_easy`), composition of
@@ -44,6 +45,33 @@ theorem gstep_st_self (N : Net) (g : GState) (s : GStep) :
 theorem grun_inv_s {N : Net} (wf : N.WF) (steps : List GStep) (g : GState) (G : GInv N g)
     (hok : GOkS N g steps) : GInv N (grun N g steps) :=
   grun_inv wf steps g G (gok_of_scheduled wf steps g G hok)
+
+/-- `NoStale` at every node along a `GOkS` execution -/
+theorem grun_noStale_s {N : Net} (wf : N.WF) (steps : List GStep) (g : GState) (G : GInv N g)
+    (hN : ∀ i, NoStale (N.cfg i) (g.st i)) (hok : GOkS N g steps) :
+    ∀ i, NoStale (N.cfg i) ((grun N g steps).st i) :=
+  stale_lock_never_persists_from N wf steps g G hN (gok_of_scheduled wf steps g G hok)
+
+/-- the auxiliary single-node invariants `Cs.Aux` at every node along a `GOk` execution -/
+theorem grun_aux {N : Net} (wf : N.WF) : ∀ (steps : List GStep) (g : GState), GInv N g →
+    (∀ i, Aux (N.cfg i) (g.st i)) → GOk N g steps → ∀ i, Aux (N.cfg i) ((grun N g steps).st i)
+  | [], _, _, hA, _ => hA
+  | s :: rest, g, G, hA, hok => by
+    apply grun_aux wf rest _ (gstep_inv wf G s hok.1) ?_ hok.2
+    intro i
+    show Aux (N.cfg i) (if i = s.1 then step (N.cfg s.1) (g.st s.1) s.2.1 s.2.2 else g.st i)
+    split
+    · rename_i e
+      subst e
+      exact step_aux (G.inv _) (hA _) _ _ hok.1.2.1
+    · exact hA i
+
+theorem gstart_aux (N : Net) (i : Nat) : Aux (N.cfg i) ((gstart N).st i) :=
+  (init_aux (N.cfg i) (N.h0 i)).bore (bore_schedule ..)
+
+theorem grun_aux_s {N : Net} (wf : N.WF) (steps : List GStep) (hok : GOkS N (gstart N) steps) :
+    ∀ i, Aux (N.cfg i) ((grun N (gstart N) steps).st i) :=
+  grun_aux wf steps _ (gstart_inv N) (gstart_aux N) (gok_of_scheduled wf steps _ (gstart_inv N) hok)
 
 /-! ### inputs without timeouts whose votes were sent before -/
 
